@@ -135,7 +135,7 @@ def main():
             oracle_fail[i] = m
 
     corr_fail, corr_err = [], None
-    emit_idx = [i for i, o in enumerate(observations) if o.get("kind") != "harness-error"]
+    emit_idx = [i for i, o in enumerate(observations) if o.get("kind") != "harness-error" and cases[i].get("coq", True)]
     if ok:
         try:
             terms = [mod.to_coq(cases[i], observations[i]) for i in emit_idx]
